@@ -543,8 +543,19 @@ def membership(desc, dom, v, enc_desc=None):
 def same_value(desc, dom, a, b):
     """round-trip equality: exact for finite / integer / categorical domains, relative 1e-7 for continuous"""
     if isinstance(dom, CS.Float):
-        return abs(float(a) - float(b)) <= 1e-7 * max(abs(float(a)), abs(float(b)))
+        if abs(float(a) - float(b)) <= 1e-7 * max(abs(float(a)), abs(float(b))):
+            return True
+        # linear encoding of an interval much wider than the value: a [0,1] double cannot resolve the
+        # value better than a few ulp of the interval ends (IEEE resolution, DESIGN 2.1; counted by the
+        # callers as ulp_excursions). Not granted to the reverse-log scaling, whose loss is avoidable.
+        if desc["k"] in ("uniform", "quniform", "qloguniform"):
+            return abs(float(a) - float(b)) <= ULPS * math.ulp(max(abs(float(dom.lower)), abs(float(dom.upper))))
+        return False
     return a == b and type(a) is type(b)
+
+
+def within_rel(a, b):
+    return abs(float(a) - float(b)) <= 1e-7 * max(abs(float(a)), abs(float(b)))
 
 
 # ---------------------------------------------------------------------------------
@@ -683,14 +694,15 @@ def run_domain_ops(case, name, which, desc, dom):
         else:
             members.append(v)
     # listed members (every category / finite value; bounds of numeric domains)
+    # (put first so that the bounds / first listed values are always among the encoded configurations)
     if isinstance(dom, CS.FiniteRange):
-        members.extend(dom.values[:8])
+        members = list(dom.values[:8]) + members
     elif isinstance(dom, CS.Categorical):
-        members.extend(dom.categories)
+        members = list(dom.categories) + members
     elif isinstance(dom, CS.Integer):
-        members.extend([dom.lower, dom.upper])
+        members = [dom.lower, dom.upper] + members
     elif isinstance(dom, CS.Float):
-        members.extend([float(dom.lower), float(dom.upper)])
+        members = [float(dom.lower), float(dom.upper)] + members
     # cast of members, is_valid of members and of non-members
     seen = set()
     for v in members:
@@ -912,6 +924,8 @@ def run_case(spec):
         lines.append((inp, {"config": {n: val_wire(v) for n, v in back.items()}}))
         case.count("roundtrip")
         for n in names:
+            if isinstance(doms[n], CS.Float) and same_value(descs[n], doms[n], back[n], cfg[n]) and not within_rel(back[n], cfg[n]):
+                case.ulp_excursions += 1
             if not same_value(descs[n], doms[n], back[n], cfg[n]):
                 if descs[n]["k"] == "logfinrange" and descs[n]["cast_int"]:
                     case.finding("c07:logfinrange-castint-roundtrip-changes-value",
